@@ -318,6 +318,43 @@ fn c20_serde_malformed(ctx: &mut Ctx) {
 }
 
 
+/// Input that is neither a two-element sequence nor a map: a bare number of any class (f64,
+/// f32, integers), bool, string, unit, option, a longer sequence.  Whatever the deserializer
+/// makes of it, it must not hand out an invalid TwoFloat, and a non-finite bare number must be
+/// rejected ("input whose words ... are non-finite ... is rejected with an error").
+fn c20_serde_other_shapes(ctx: &mut Ctx) {
+    use serde::de::IntoDeserializer;
+    let v = f64_any(ctx);
+    let which = ctx.below(11);
+    ctx.key_f64(v);
+    ctx.key_u64(which);
+    ctx.note("value", || showf(v));
+    type E = DeError;
+    let (name, r): (&str, Result<Result<TwoFloat, String>, String>) = match which {
+        0 => ("bare f64", guard(|| TwoFloat::deserialize(IntoDeserializer::<E>::into_deserializer(v)).map_err(|e| e.to_string()))),
+        1 => ("bare f32", guard(|| TwoFloat::deserialize(IntoDeserializer::<E>::into_deserializer(v as f32)).map_err(|e| e.to_string()))),
+        2 => ("bare i64", guard(|| TwoFloat::deserialize(IntoDeserializer::<E>::into_deserializer(v as i64)).map_err(|e| e.to_string()))),
+        3 => ("bare u64", guard(|| TwoFloat::deserialize(IntoDeserializer::<E>::into_deserializer(v as u64)).map_err(|e| e.to_string()))),
+        4 => ("bool", guard(|| TwoFloat::deserialize(IntoDeserializer::<E>::into_deserializer(v > 0.0)).map_err(|e| e.to_string()))),
+        5 => ("string", guard(|| TwoFloat::deserialize(IntoDeserializer::<E>::into_deserializer(format!("{v:e}"))).map_err(|e| e.to_string()))),
+        6 => ("unit", guard(|| TwoFloat::deserialize(IntoDeserializer::<E>::into_deserializer(())).map_err(|e| e.to_string()))),
+        7 => ("three-element sequence", guard(|| de_seq_n(vec![v, 0.0, 0.0]).map_err(|e| e.to_string()))),
+        8 => ("JSON bare number", guard(|| serde_json::from_str::<TwoFloat>(&format!("{v:e}")).map_err(|e| e.to_string()))),
+        9 => ("JSON null", guard(|| serde_json::from_str::<TwoFloat>("null").map_err(|e| e.to_string()))),
+        _ => ("JSON nested", guard(|| serde_json::from_str::<TwoFloat>(&format!("[[{v:e},0.0]]")).map_err(|e| e.to_string()))),
+    };
+    ctx.note("shape", || name.to_string());
+    match r {
+        Err(m) => ctx.fail(format!("deserialising a {name} ({}) panicked: {m}", showf(v))),
+        Ok(Ok(t)) => {
+            let d = Dd::of(t);
+            check!(ctx, d.valid(), "a {name} ({}) deserialised into the invalid TwoFloat {}", showf(v), d.show());
+        }
+        Ok(Err(_)) => {}
+    }
+    ctx.set_nontrivial(!v.is_finite() || which >= 4);
+}
+
 /// Checks one JSON text against the deserializer: whatever deserialises must be a valid pair, and
 /// when the text is an object/array carrying exactly two finite numbers under hi/lo the outcome is
 /// decided completely (Ok <=> valid, words preserved).
@@ -425,13 +462,14 @@ pub fn c20() -> Property {
     let g = |name, eval, quick, thorough| SubCheck { name, kind: Kind::Generated { words: 32, max_items: 0 }, eval, quick, thorough };
     Property {
         id: "C20",
-        rule: "format: valid values over the whole range (incl. -0.0 and subnormal low words, exponents needing 300-digit decimals) x {Display, LowerExp, UpperExp} x {plain, +} x {no precision, .0-.40 (mostly), .41-.1100, and the values around 767, 1023, 1074, 2000, 4096, 65535}; serde: valid values through serde_test tokens, serde_json value tree, JSON text (both field orders, sequence) and serde's SeqDeserializer/MapDeserializer; arbitrary (hi, lo) word pairs (any class, lo within ±4 ulps of the half/quarter/full-ulp thresholds, inf, NaN) in all three shapes; nine malformed shapes. non-trivial = non-zero low word (format, round trip), pair within 2 binades of the threshold or non-finite (arbitrary), every malformed case; distinct = distinct (value, format) / word pairs",
+        rule: "format: valid values over the whole range (incl. -0.0 and subnormal low words, exponents needing 300-digit decimals) x {Display, LowerExp, UpperExp} x {plain, +} x {no precision, .0-.40 (mostly), .41-.1100, and the values around 767, 1023, 1074, 2000, 4096, 65535}; serde: valid values through serde_test tokens, serde_json value tree, JSON text (both field orders, sequence) and serde's SeqDeserializer/MapDeserializer; arbitrary (hi, lo) word pairs (any class, lo within ±4 ulps of the half/quarter/full-ulp thresholds, inf, NaN) in all three shapes; nine malformed shapes; eleven other shapes (bare f64/f32/i64/u64 of any class, bool, string, unit, longer or nested sequences, JSON null) that must never yield an invalid value. non-trivial = non-zero low word (format, round trip), pair within 2 binades of the threshold or non-finite (arbitrary), every malformed case; distinct = distinct (value, format) / word pairs",
         assumptions: vec!["f64::from_str and the f64 Display/LowerExp/UpperExp of the Rust standard library (used to parse numerals back and as the reference rendering)".into(), "serde's data model (serde::de::value deserializers, serde_test tokens) and serde_json with float_roundtrip".into()],
         subchecks: vec![
             g("format", c20_format, 400_000, 10_000_000),
             g("serde_roundtrip", c20_serde_roundtrip, 200_000, 5_000_000),
             g("serde_arbitrary", c20_serde_arbitrary, 400_000, 10_000_000),
             g("serde_malformed", c20_serde_malformed, 100_000, 2_000_000),
+            g("serde_other_shapes", c20_serde_other_shapes, 100_000, 2_000_000),
             SubCheck { name: "json_grammar", kind: Kind::Generated { words: 2, max_items: 8 }, eval: c20_json_grammar, quick: 200_000, thorough: 5_000_000 },
             SubCheck { name: "json_bytes", kind: Kind::Generated { words: 64, max_items: 0 }, eval: c20_json_bytes, quick: 0, thorough: 0 },
         ],
